@@ -106,7 +106,21 @@ def grammar_snapshot(g):
         d = get_gengy(c) if c.__module__ != "builtins" else {}
         # only what the property names (production weights, abstractness): other keys may be caches
         gengy.append((tname(c), tuple(sorted((k, repr(v)) for k, v in d.items() if k in ("weight", "abstract")))))
+    refinements = []
+    for c in sorted(g.all_nodes, key=tname):
+        if c.__module__ == "builtins":
+            continue
+        ann = getattr(getattr(c, "__init__", None), "__annotations__", {}) or {}
+        for fn, ft in ann.items():
+            for mh in getattr(ft, "__metadata__", ()):
+                st = []
+                for k, v in sorted(vars(mh).items()) if hasattr(mh, "__dict__") else ():
+                    if callable(v):
+                        continue
+                    st.append((k, repr(v.tolist()) if hasattr(v, "tolist") else repr(v)))
+                refinements.append((tname(c), fn, type(mh).__name__, tuple(st)))
     return {
+        "refinements": tuple(refinements),
         "start": tname(g.starting_symbol),
         "alternatives": tuple((tname(k), names(v)) for k, v in g.alternatives.items()),
         "distanceToTerminal": tuple(sorted((tname(k), v) for k, v in g.distanceToTerminal.items())),
